@@ -109,7 +109,7 @@ mut('m08d_oversize_removed_async', ['C05'], A, '''            if value_size > ma
 mut('m09_string_len', ['C05'], ME, 'std::mem::size_of::<Self>() + self.capacity()', 'std::mem::size_of::<Self>() + self.len()')
 mut('m02c_key_precision', ['C02'], KY, 'format!("{:?}", self)', 'format!("{:.1?}", self)', 'floats that differ after the first decimal share a key')
 mut('m02d_async_part_precision', ['C02'], MU, '                __key_parts.push(format!("{:?}", #arg_pats));\n            )*', '                __key_parts.push(format!("{:.3?}", #arg_pats));\n            )*', 'async free fn: float arguments truncated to 3 decimals in the key')
-mut('m05x_fit_sum_counts_entries', ['C05'], G, '                        .map(|e| e.value.estimate_memory())\n                        .sum();', '                        .map(|e| e.estimate_memory())\n                        .sum();', 'fit test sums whole entries (value + bookkeeping): needless evictions')
+mut('m05x_fit_sum_counts_entries', ['C05'], G, '                        .map(|e| e.value.estimate_memory())\n                        .sum::<usize>()', '                        .map(|e| crate::MemoryEstimator::estimate_memory(e))\n                        .sum::<usize>()', 'fit test sums whole entries (value + bookkeeping): needless evictions')
 mut('m09c_vec_buffer_elem_size', ['C05'], ME, 'let buffer = self.capacity() * size_of::<T>();', 'let buffer = self.capacity() * size_of::<usize>();', 'buffer counted in words, not in elements')
 mut('m09d_option_double_counts_inline', ['C05'], ME, '.map_or(0, |val| val.estimate_memory() - size_of_val(val))', '.map_or(0, |val| val.estimate_memory())', 'payload inline size counted twice')
 mut('m09e_result_err_arm', ['C05'], ME, 'Err(err) => err.estimate_memory() - size_of_val(err),', 'Err(_) => 0,', 'heap owned by the Err payload ignored')
